@@ -5,6 +5,8 @@
 (*   - reaches the backend only between NewSession and Session.Close,      *)
 (*   - buffers a literal in memory only if it is at most LitMax bytes,     *)
 (*   - hands APPEND at most AppendMax bytes,                               *)
+(*   - hands over arguments whose parenthesised nesting is at most NestMax *)
+(*     deep (search keys are the one place where a command nests),         *)
 (*   - closes the backend session exactly once, closes the connection and  *)
 (*     leaves no goroutine behind once the peer is gone.                   *)
 (* The reader modes in which a disconnect can strike are explicit.         *)
@@ -12,6 +14,7 @@
 EXTENDS Naturals, Sequences, TLC
 
 CONSTANTS LitMax, AppendMax,   \* 4096, 100 MiB (classes in the bounded model)
+          NestMax,             \* 1000: deepest list nesting the reader follows
           Sizes                \* literal sizes the model tries
 
 VARIABLES phase,       \* "new" | "serving" | "teardown" | "done"
